@@ -8,7 +8,9 @@ different fingerprint afterwards (nested budget manager, windows, counters,
 thresholds, generator state/position), (3) behavioural: all continuations of
 depth <= 2 produce identical outputs and end states from the pristine state
 and from the state on which every query of the alphabet was called twice,
-(4) get_params(deep=True) is unchanged by query.
+(3b) the object that is queried before each update ends in the same state as
+an object that only receives the updates (with the indices the queries
+returned), (4) get_params(deep=True) is unchanged by query.
 """
 import copy
 import itertools
@@ -110,8 +112,9 @@ def judge_state(subj, o, queries, conts):
             out.append(("params_changed_by_query", "query %s changed get_params(deep=True)" % "".join(q), {}))
     # behavioural continuation check: pristine vs dirty
     for C in conts:
-        x, y = copy.deepcopy(o), copy.deepcopy(dirty)
+        x, y, z = copy.deepcopy(o), copy.deepcopy(dirty), copy.deepcopy(o)
         ok = True
+        zok = True
         for step in C:
             try:
                 with T.ties(T.Tape()):
@@ -120,6 +123,17 @@ def judge_state(subj, o, queries, conts):
                 sx = ("ok", rx)
             except Exception as e:
                 sx = ("exc", type(e).__name__)
+            # z never sees a query: it is only told (by update) what x's queries decided
+            if zok and sx[0] == "ok":
+                try:
+                    with T.ties(T.Tape()):
+                        G.do_update(subj, z, step, rx[0], rx[1], UV)
+                except Exception as e:
+                    zok = False
+                    out.append(("update_needs_a_preceding_query", "continuation %s: update(%s) without a preceding query raises %s: %s" % (
+                        ["".join(c) for c in C], "".join(step), type(e).__name__, str(e)[:120]), {"exc": type(e).__name__}))
+            else:
+                zok = False
             try:
                 with T.ties(T.Tape()):
                     ry = G.do_query(subj, y, step, UV)
@@ -135,6 +149,14 @@ def judge_state(subj, o, queries, conts):
             if sx[0] == "exc":
                 ok = False
                 break
+        if ok and zok:
+            # the queries of x were pure simulations, so x must be in the state that the updates alone produce
+            ax, _ = _afp(x)
+            az, _ = _afp(z)
+            d = sorted(k for k in set(ax) & set(az) if ax[k] != az[k])
+            if d:
+                out.append(("queries_leave_a_trace_in_the_updated_state", "continuation %s: the object that was queried before each update differs from the "
+                            "object that only received the updates in %s" % (["".join(c) for c in C], d[:5]), {"attrs": ",".join(d[:3])}))
         if ok and _pfp(x) != _pfp(y):
             ax, _ = _afp(x)
             ay, _ = _afp(y)
